@@ -22,6 +22,13 @@ R01e coverage: the started/executed line ids that _validate_liveedit_method lock
      lets the class of a node decide whether it is part of the result - e.g. get_instructions() without include_blanks
      drops blank lines, so an edit that turns a passed blank line into an instruction would be merged); ProgramNode.
      extract_tree_state / apply_tree_state visit every node likewise.
+R01f the validation sees deleted lines too: _validate_liveedit_method rejects (raises MethodEditError) when a started/executed
+     line of the *old* method is missing from the new one - a loop over the old method's lines whose raise is guarded by
+     membership in the started/executed ids and by absence from the new method's ids. A validation that only walks the new
+     method's lines never looks at a line that was removed.
+R01g macro guard compares what the line does: Node.matches_source (used for macros that have started) compares the
+     instruction name as well as class, name, arguments and threshold - two UOD commands, or Pause and Hold, are nodes of one
+     class, so `CmdA: x` -> `CmdB: x` in an executed macro body would pass.
 Decides these shapes; equality of the edited run with a fresh run is out of static reach.
 """
 from __future__ import annotations
@@ -251,6 +258,50 @@ def run(ctx) -> None:
         ctx.fail("R01d", es, mnodes[0].ast, "Engine.set_method merges exactly under _runstate_started and program_is_started",
                  "the merge/replace decision changed")
 
+    # ---- R01f
+    ctx.rule("R01f", "removing a started or executed line is rejected")
+    vl_ = mm.methods["_validate_liveedit_method"]
+    gvl = cfg_of(vl_)
+    rs_ = [n for n in gvl.nodes if n.kind == "stmt" and isinstance(n.ast, ast.Raise) and "MethodEditError" in norm(n.ast)]
+    ok_rm = False
+    for rn in rs_:
+        conds = [(norm(e), pol) for e, pol in gvl.conditions_at(rn)]
+        if any((a, pol) in (("False", True), ("True", False)) for a, pol in facts_at(gvl, rn)):
+            continue        # guarded by a constant: the raise is dead
+        loops = [n for n in gvl.nodes if n.kind == "for" and gvl.dominates(n, rn)]     # the loop variable in the guards ties the raise to its loop
+        for lp in loops:
+            it = norm(lp.ast.iter)
+            src = local_single_defs(vl_).get(it.split(".")[0])
+            over_old = it.startswith("self._method") or (src is not None and norm(src).startswith("self._method"))
+            if not over_old or not isinstance(lp.ast.target, ast.Name):
+                continue
+            var = lp.ast.target.id + ".id"
+            has_state = any(pol and var in c and ("executed_line_ids" in c or "started_line_ids" in c) for c, pol in conds)
+            missing = any((var + " not in ") in c and pol and "method_state" not in c for c, pol in conds) or any(
+                (var + " in ") in c and not pol and "method_state" not in c for c, pol in conds)
+            if has_state and missing:
+                ok_rm = True
+    inst = "_validate_liveedit_method: a started/executed line missing from the new method raises MethodEditError"
+    if ok_rm:
+        ctx.ok("R01f", inst)
+    else:
+        ctx.fail("R01f", vl_, vl_.node, inst, "only the new method's lines are examined: deleting the running Wait or a completed Mark is merged, the "
+                 "line disappears from the reported method state and the work it stands for is discarded")
+    # ---- R01g
+    ctx.rule("R01g", "the started-macro guard compares the instruction name")
+    ms = prog.func("openpectus.lang.model.ast:Node.matches_source")
+    ctx.analysed(ms)
+    cmp_attrs = {x.left.attr for x in ast.walk(ms.node) if isinstance(x, ast.Compare) and isinstance(x.left, ast.Attribute)
+                 and isinstance(x.ops[0], ast.NotEq) and isinstance(x.comparators[0], ast.Attribute) and x.comparators[0].attr == x.left.attr
+                 and norm(x.comparators[0].value) != norm(x.left.value)}
+    inst = "Node.matches_source compares instruction_name, arguments and threshold"
+    need = {"instruction_name", "arguments", "threshold"}
+    if need <= cmp_attrs:
+        ctx.ok("R01g", inst, {"rule": "R01g", "compared": sorted(cmp_attrs)})
+    else:
+        ctx.fail("R01g", ms, ms.node, inst, f"{sorted(need - cmp_attrs)} not compared (compared: {sorted(cmp_attrs)}): an already executed line of a started "
+                 "macro can be changed to another instruction of the same node class (CmdA: x -> CmdB: x, Pause -> Hold) during the macro's "
+                 "second call and the edit is merged")
     # ---- R01e
     ctx.rule("R01e", "the lock set of the validation and the carried state cover every line of the method")
     from .. import traversal
